@@ -286,7 +286,7 @@ def run(ck):
                       'the harness is deterministic: output is a function of run and invocation number; exit 127 and '
                       'OSError are excluded (C04, C13)']
     ck.exhaustive = True
-    n_scen = 12 if quick else 120
+    n_scen = 12 if quick else 80
     items, done, idx = [], 0, 0
     for name, data in c06.load_corpus(ck):
         scen = data['input']
@@ -312,7 +312,7 @@ def run(ck):
     if items:
         judge_items(ck, items)
     if not quick:
-        cli_sessions(ck, 150)
+        cli_sessions(ck, 100)
     else:
         cli_sessions(ck, 3)
 
